@@ -428,4 +428,22 @@ theorem matchPrefix_lits (l s : Name) :
       · subst hcx; simp [ih]
       · simp [hcx]
 
+/-- `re.compile('^' + re.escape(l) + '$')` and the string entry `l` accept the same names: the three
+    ways of writing an entry (string, regex, predicate) are interchangeable where they denote the
+    same set -/
+theorem anchored_literal_is_string (l s : Name) :
+    Rx.search { anchorStart := true, atoms := l.map RxAtom.ch, anchorEnd := true } s = (s == l) := by
+  simp only [Rx.search, Rx.matchAt, if_true, Bool.not_true, Bool.false_or]
+  induction l generalizing s with
+  | nil => cases s <;> simp [matchPrefix]
+  | cons c l ih =>
+    cases s with
+    | nil => simp [matchPrefix]
+    | cons x s =>
+      simp only [List.map_cons, matchPrefix]
+      by_cases h : c = x
+      · subst h; simp [ih]
+      · have : ¬ (x = c) := fun e => h e.symm
+        simp [h, this]
+
 end Yaql.Props.C07
